@@ -218,6 +218,7 @@ RESPONSE_MESSAGES = {
     MessageType.COMMAND_RESPONSE,
     MessageType.CONFIG_RESPONSE,
     MessageType.MESSAGE_RATE_RESPONSE,
+    MessageType.STA5635_COMMAND_RESPONSE,
 }
 
 
